@@ -4,7 +4,7 @@ from .. import formats as F
 import struct
 
 BINS = ["ux_codec"]
-PIPE = {"hang_secs": 30, "neg_skip": ("der_anyref", "der_intref", "der_uintref")}
+PIPE = {"hang_secs": 30, "neg_skip": ("der_anyref", "der_any_r", "der_any_o", "der_intref", "der_uintref")}
 RULE = ("every decoder (alloy-rlp, fastrlp 0.3/0.4, rlp Uint+Bits, SCALE fixed+compact, SSZ, borsh Uint+Bits, DER from_der and "
         "the AnyRef/IntRef/UintRef conversions, serde_json, bincode, BigUint/BigInt, ark-ff BigInt, 17 postgres from_sql types) "
         "is run on EVERY generated input: for each width the valid encodings (every format) of boundary values with each "
@@ -139,6 +139,11 @@ def scenarios(tier, rng):
                    list("1é".encode()), list("€5".encode()), list("0×10".encode()), list("😀".encode()), list("0é".encode()),
                    list("é1".encode()), list("１２".encode()), list('"1é"'.encode()), list('"€"'.encode()), list('"0×10"'.encode()),
                    list('"😀"'.encode()), [1] + list('"1é"'.encode()), list("0xé".encode()), list('"0xé"'.encode()), [ord(c) for c in '"\\u0031"'], [2] + [ord(c) for c in '"0x1"'], [1]]
+        # DER: a well-formed INTEGER body under every other universal tag (and other classes) does not denote an integer
+        for v in (5, mx, mx >> 1, 0x80):
+            body = F.der(v)
+            for tag in (0x01, 0x03, 0x04, 0x05, 0x0a, 0x0c, 0x13, 0x16, 0x30, 0x31, 0x42, 0x80, 0x82, 0xa0, 0xa2):
+                inputs.append([tag] + list(body[1:]))
         inputs += float_inputs(bits, rng) + money_inputs() + bit_header_inputs(bits, rng)
         for _ in range(40 if quick else 400):
             ln = rng.randrange(0, nb + 17)
